@@ -3,9 +3,10 @@
    xorb in the session shard, reaps finished tasks (returning the first error it meets), spawns the upload; finalize
    joins every task before it uploads the shards.  The environment decides when each upload finishes and whether it
    fails.  [upload_failure_is_sticky] is regenerated from the source on every run. *)
-From Coq Require Import List NArith Bool Arith.
+From Coq Require Import List NArith Bool Arith Permutation.
 Import ListNotations.
-From XetModel Require Import Gen.DedupFacts Gen.UploadFacts Model.Upload Proofs.UploadProofs.
+From XetModel Require Import Base.Codec Model.Merkle Model.Shard Model.Dedup Model.Cache Model.Chunker Model.Reconstruct Proofs.ChunkerLaws Proofs.ResolveProofs Proofs.EndToEndProofs
+  Gen.DedupFacts Gen.UploadFacts Model.Upload Proofs.UploadProofs Proofs.UploadSessionProofs.
 
 Theorem C16_invariant_every_history : forall es s, UInv s -> UInv (urun true s es).
 Proof. exact urun_inv. Qed.
@@ -21,6 +22,42 @@ Theorem C16_failure_fails_finalize : forall s x, UInv s -> In x (u_failed s) -> 
 Proof. exact failure_fails_finalize. Qed.
 Theorem C16_failure_is_sticky : forall s x, u_sticky s = true -> snd (register true s x) = false.
 Proof. exact sticky_rejects. Qed.
+
+(* the session as its caller sees it (session_result: every registration's result, the join, the upload of the session's
+   shards, each of which may fail): success means that no store call failed, every registered xorb is stored and every
+   shard upload succeeded -- for every order of registrations and completions and every choice of failures *)
+Theorem C16_session_success : forall es shards, session_result true es shards = Some true ->
+  let s := urun true u_init es in
+  (forall x, In x (regs es) -> In x (u_stored s)) /\ u_failed s = [] /\ (forall b, In b shards -> b = true) /\ regs_ok true u_init es = true.
+Proof. exact session_success. Qed.
+(* the property's wording: a failed xorb upload or a failed shard upload makes the session report an error *)
+Theorem C16_failure_is_reported : forall es shards r, session_result true es shards = Some r ->
+  u_failed (urun true u_init es) <> [] \/ In false shards -> r = false.
+Proof. exact failure_is_reported. Qed.
+(* "a session that reports success always leaves every file fully reconstructible from the store", composed with the
+   deduper's session (C01) and the download (C17): the deduper hands its xorbs to the upload path, which registers them in
+   that order as 0, 1, ..; the store holds at least what the successful puts stored; then every file the session completed
+   downloads to exactly the bytes that were cleaned *)
+Theorem C16_success_means_reconstructible : forall (content : hash -> bytes) (hashf : bytes -> hash) F U rc cf ops es shards target c calls chs fh,
+  let ups := rev (s_uploaded (srun rc cf ops)) in
+  regs es = seq 0 (length ups) ->
+  (forall i x, In i (u_stored (urun true u_init es)) -> nth_error ups i = Some x -> In x F) ->
+  session_result true es shards = Some true ->
+  chunker_new target = Some c -> api_ok calls = true -> run_calls c st0 calls = Some chs ->
+  StoreOk F U -> Forall (op_ok F U) ops ->
+  In (fh, ids_of hashf chs) (ghosts ops) ->
+  (forall ch, In ch chs -> content (hashf ch) = ch) ->
+  let data := concat (map fst calls) in
+  exists fi, In fi (s_shard_files (srun rc cf ops)) /\ fi_hash fi = fh /\
+    let terms := map (term_of content F) (fi_segs fi) in
+    seq_write terms true 0 (lenN data) = Some data /\
+    forall order out n, Permutation order (seq 0 (length terms)) -> par_write terms (map lenN terms) 0 (lenN data) order = Some (out, n) -> out = data.
+Proof. exact success_means_reconstructible. Qed.
+Example C16_session_examples :
+  session_result true [URegister 0; URegister 1; UFinish 1 true; URegister 2; UFinish 0 true; UFinish 2 true]%nat [true] = Some true /\
+  session_result true [URegister 0; URegister 1; UFinish 1 false; URegister 2; UFinish 0 true]%nat [true] = Some false /\
+  session_result true [URegister 0; UFinish 0 true]%nat [true; false] = Some false.
+Proof. exact session_examples. Qed.
 
 (* the shape the source had before the repair: the observed failure is forgotten and finalize uploads a shard that names
    xorbs which are not stored *)
@@ -40,3 +77,6 @@ Proof. split; [exact UInv_init | reflexivity]. Qed.
 Print Assumptions C16_invariant_every_history.
 Print Assumptions C16_shards_follow_xorbs.
 Print Assumptions C16_failure_fails_finalize.
+Print Assumptions C16_session_success.
+Print Assumptions C16_failure_is_reported.
+Print Assumptions C16_success_means_reconstructible.
